@@ -410,4 +410,208 @@ theorem mapM'_total {α β} (f : α → PyM β) : ∀ (l : List α), (∀ a ∈ 
     obtain ⟨bs, hbs⟩ := ih (fun x hx => h x (List.mem_cons_of_mem _ hx))
     exact ⟨b :: bs, by simp [mapM', hb, hbs, bind, Except.bind]⟩
 
+theorem forall₂_mem_left {α β} {R : α → β → Prop} : ∀ {l : List α} {xs : List β}, List.Forall₂ R l xs →
+    ∀ a ∈ l, ∃ x ∈ xs, R a x
+  | _, _, .nil, a, h => by cases h
+  | _, _, .cons hr ht, a, h => by
+    rcases List.mem_cons.mp h with rfl | h
+    · exact ⟨_, by simp, hr⟩
+    · obtain ⟨x, hx, hax⟩ := forall₂_mem_left ht a h
+      exact ⟨x, List.mem_cons_of_mem _ hx, hax⟩
+
+/-- a keyed list built by `mapM'` over its keys reads back, under each key, what the body computed for that key -/
+theorem dictGet?_built {β} (G : Nat → PyM (Nat × β)) (hG : ∀ a x, G a = .ok x → x.1 = a) :
+    ∀ {l : List Nat} {xs : List (Nat × β)}, List.Forall₂ (fun a x => G a = .ok x) l xs →
+    ∀ a ∈ l, ∃ y, dictGet? xs a = some y ∧ G a = .ok (a, y)
+  | _, _, .nil, a, h => by cases h
+  | _, _, @List.Forall₂.cons _ _ _ a0 x0 l0 xs0 hr ht, a, h => by
+    obtain ⟨k, y⟩ := x0
+    have hk : k = a0 := hG a0 _ hr
+    subst hk
+    by_cases e : k = a
+    · subst e
+      exact ⟨y, by simp [dictGet?], hr⟩
+    · have hm : a ∈ l0 := by
+        rcases List.mem_cons.mp h with e' | h'
+        · exact absurd e'.symm e
+        · exact h'
+      obtain ⟨y', h1, h2⟩ := dictGet?_built G hG ht a hm
+      exact ⟨y', by simp [dictGet?, e, h1], h2⟩
+
+/-! ### the document -/
+
+/-- **Opened**: what a document that `Document(path)` returned satisfies (`opened_after_load`) and what the component
+    theorems need:
+    * `tree` — identifiers distinct, every table info listed by its sheet, the members' archive segments are the store's
+      objects (DocTree `order_after_reload` / `serialise_perm`);
+    * `tables` — the tables the sheets reach exist, and each is `TableOpened`: C01 `table_roundtrip`'s hypotheses on the
+      grid, `MergeAgrees`, C12's consistency of the merge map (`MergeOK`). -/
+structure Opened (d : Doc) : Prop where
+  tree : TreeOK d.tree
+  tables : ∃ tids, allTableIds d.tree.objects = .ok tids ∧
+    ∀ tid ∈ tids, ∃ t, dictGet? d.tables tid = some t ∧ TableOpened t
+
+/-- **Writable**: no table that a save rewrites holds a formula-error cell (pivot tables are not rewritten) -/
+def Writable (d : Doc) : Prop :=
+  ∀ tids, allTableIds d.tree.objects = .ok tids → ∀ tid ∈ tids, ∀ t, dictGet? d.tables tid = some t → TableWritable t
+
+open DocTree in
+theorem readers_perm (os os' : Objects) (hp : os'.Perm os) (hn : (dictKeys os).Nodup) (hl : Listed os) :
+    sheetIds os' = sheetIds os ∧ sheetName os' = sheetName os ∧
+    (∀ s, tableIds os' (some s) = tableIds os (some s)) ∧ tableName os' = tableName os ∧
+    allTableIds os' = allTableIds os := by
+  have h1 : sheetIds os' = sheetIds os := by simp only [sheetIds, getObj_perm os os' hp hn]
+  have h2 : sheetName os' = sheetName os := by funext s; simp only [sheetName, dictGet?_perm os os' hp hn]
+  have h3 : ∀ s, tableIds os' (some s) = tableIds os (some s) := tableIds_perm os os' hp hn hl
+  have h4 : tableName os' = tableName os := by funext s; simp only [tableName, getObj_perm os os' hp hn]
+  refine ⟨h1, h2, h3, h4, ?_⟩
+  simp only [allTableIds, h1, h3]
+
+open DocTree in
+theorem doc_cycle (d : Doc) (hO : Opened d) (hW : Writable d) :
+    ∃ s d', saveDoc d = .ok s ∧ loadDoc s = .ok d' ∧ Opened d' ∧ Writable d' ∧ ∀ env, dump env d' = dump env d := by
+  obtain ⟨tids, htids, htab⟩ := hO.tables
+  -- per table
+  have hcyc : ∀ tid ∈ tids, ∃ t s t', dictGet? d.tables tid = some t ∧ saveTableSt t = .ok s ∧
+      loadTableSt t.pivot.isSome s = .ok t' ∧ TableOpened t' ∧ TableWritable t' ∧
+      ∀ env tid', obsTable env tid' t' = obsTable env tid' t := by
+    intro tid hm
+    obtain ⟨t, ht, hto⟩ := htab tid hm
+    obtain ⟨s, t', h1, h2, h3, h4, _, h6⟩ := table_cycle t hto (hW tids htids tid hm t ht)
+    exact ⟨t, s, t', ht, h1, h2, h3, h4, h6⟩
+  -- the save
+  let F : Nat → PyM (Nat × Bool × SavedTableSt) := fun tid => do
+    let t ← dictGet d.tables tid
+    let s ← saveTableSt t
+    pure (tid, t.pivot.isSome, s)
+  have hF : ∀ tid ∈ tids, ∃ t s t', dictGet? d.tables tid = some t ∧ F tid = .ok (tid, t.pivot.isSome, s) ∧
+      loadTableSt t.pivot.isSome s = .ok t' ∧ TableOpened t' ∧ TableWritable t' ∧
+      ∀ env tid', obsTable env tid' t' = obsTable env tid' t := by
+    intro tid hm
+    obtain ⟨t, s, t', ht, h1, h2, h3, h4, h6⟩ := hcyc tid hm
+    exact ⟨t, s, t', ht, by simp [F, dictGet, ht, h1, bind, Except.bind, pure, Except.pure], h2, h3, h4, h6⟩
+  obtain ⟨saved, hsaved⟩ := mapM'_total F tids (fun tid hm => by
+    obtain ⟨t, s, _, _, h, _⟩ := hF tid hm; exact ⟨_, h⟩)
+  have hFshape : ∀ a x, F a = .ok x → x.1 = a := by
+    intro a x h
+    simp only [F, bind, Except.bind] at h
+    cases h1 : dictGet d.tables a with
+    | error e => rw [h1] at h; cases h
+    | ok t =>
+      rw [h1] at h
+      simp only at h
+      cases h2 : saveTableSt t with
+      | error e => rw [h2] at h; cases h
+      | ok s => rw [h2] at h; simp only [pure, Except.pure] at h; injection h with h; rw [← h]
+  have hsavedGet := dictGet?_built F hFshape (mapM'_ok F tids saved hsaved)
+  have hsave : saveDoc d = .ok { members := serialise d.tree, tables := saved } := by
+    simp only [saveDoc, htids, bind, Except.bind]
+    have h' := hsaved
+    simp only [F, bind, Except.bind] at h'
+    rw [h']; rfl
+  -- the tree
+  obtain ⟨hperm, htree'⟩ := reload_tree d.tree hO.tree
+  obtain ⟨r1, r2, r3, r4, r5⟩ := readers_perm d.tree.objects (load (serialise d.tree)).objects hperm hO.tree.nodup hO.tree.listed
+  -- the load
+  let H : Nat → PyM (Nat × TableSt) := fun tid => do
+    let (pv, st) ← dictGet saved tid
+    let t ← loadTableSt pv st
+    pure (tid, t)
+  have hH : ∀ tid ∈ tids, ∃ t t', dictGet? d.tables tid = some t ∧ H tid = .ok (tid, t') ∧ TableOpened t' ∧
+      TableWritable t' ∧ ∀ env tid', obsTable env tid' t' = obsTable env tid' t := by
+    intro tid hm
+    obtain ⟨t, s, t', ht, h1, h2, h3, h4, h6⟩ := hF tid hm
+    obtain ⟨y, hy1, hy2⟩ := hsavedGet tid hm
+    rw [h1] at hy2
+    injection hy2 with hy2
+    injection hy2 with _ hy2
+    subst hy2
+    exact ⟨t, t', ht, by simp [H, dictGet, hy1, h2, bind, Except.bind, pure, Except.pure], h3, h4, h6⟩
+  obtain ⟨tabs, htabs⟩ := mapM'_total H tids (fun tid hm => by
+    obtain ⟨_, _, _, h, _⟩ := hH tid hm; exact ⟨_, h⟩)
+  have hHshape : ∀ a x, H a = .ok x → x.1 = a := by
+    intro a x h
+    simp only [H, bind, Except.bind] at h
+    cases h1 : dictGet saved a with
+    | error e => rw [h1] at h; cases h
+    | ok ps =>
+      obtain ⟨pv, st⟩ := ps
+      rw [h1] at h
+      simp only at h
+      cases h2 : loadTableSt pv st with
+      | error e => rw [h2] at h; cases h
+      | ok t => rw [h2] at h; simp only [pure, Except.pure] at h; injection h with h; rw [← h]
+  have htabsGet := dictGet?_built H hHshape (mapM'_ok H tids tabs htabs)
+  have hfin : ∀ tid ∈ tids, ∃ t t', dictGet? d.tables tid = some t ∧ dictGet? tabs tid = some t' ∧ TableOpened t' ∧
+      TableWritable t' ∧ ∀ env tid', obsTable env tid' t' = obsTable env tid' t := by
+    intro tid hm
+    obtain ⟨t, t', ht, h1, h3, h4, h6⟩ := hH tid hm
+    obtain ⟨y, hy1, hy2⟩ := htabsGet tid hm
+    rw [h1] at hy2
+    injection hy2 with hy2
+    injection hy2 with _ hy2
+    subst hy2
+    exact ⟨t, t', ht, hy1, h3, h4, h6⟩
+  have hload : loadDoc { members := serialise d.tree, tables := saved }
+      = .ok { tree := load (serialise d.tree), tables := tabs } := by
+    simp only [loadDoc, r5, htids, bind, Except.bind]
+    have h' := htabs
+    simp only [H, bind, Except.bind] at h'
+    rw [h']; rfl
+  refine ⟨_, _, hsave, hload, ⟨htree', tids, by simp only [r5, htids], ?_⟩, ?_, ?_⟩
+  · intro tid hm
+    obtain ⟨_, t', _, h2, h3, _⟩ := hfin tid hm
+    exact ⟨t', h2, h3⟩
+  · intro tids' htids' tid hm t ht
+    simp only [r5, htids] at htids'
+    injection htids' with htids'
+    subst htids'
+    obtain ⟨_, t', _, h2, _, h4, _⟩ := hfin tid hm
+    simp only at ht
+    rw [h2] at ht
+    injection ht with ht
+    subst ht
+    exact h4
+  · intro env
+    simp only [dump, r1, r2, r3, r4]
+    -- the sheets and their tables, from `allTableIds`
+    simp only [allTableIds, bind, Except.bind] at htids
+    cases hs : sheetIds d.tree.objects with
+    | error e => rfl
+    | ok sids =>
+      rw [hs] at htids
+      simp only at htids
+      cases hts : mapM' (fun sid => tableIds d.tree.objects (some sid)) sids with
+      | error e => rw [hts] at htids; cases htids
+      | ok tss =>
+        rw [hts] at htids
+        simp only [pure, Except.pure] at htids
+        injection htids with htids
+        have hall := mapM'_ok _ sids tss hts
+        simp only [bind, Except.bind]
+        apply mapM'_congr
+        intro sid hsid
+        obtain ⟨ts, htsm, hts'⟩ := forall₂_mem_left hall sid hsid
+        cases sheetName d.tree.objects sid with
+        | error e => rfl
+        | ok nm =>
+          simp only [hts']
+          have : mapM' (fun tid => do
+                let tn ← tableName d.tree.objects tid
+                let t ← dictGet tabs tid
+                pure (tn, obsTable env tid t)) ts
+              = mapM' (fun tid => do
+                let tn ← tableName d.tree.objects tid
+                let t ← dictGet d.tables tid
+                pure (tn, obsTable env tid t)) ts := by
+            apply mapM'_congr
+            intro tid htid
+            have hm : tid ∈ tids := by
+              rw [← htids]
+              exact List.mem_flatten.mpr ⟨ts, htsm, htid⟩
+            obtain ⟨t, t', ht, h2, _, _, h6⟩ := hfin tid hm
+            simp only [dictGet, ht, h2, bind, Except.bind, h6]
+          simp only [bind, Except.bind] at this
+          rw [this]
+
 end NumbersModel.Document
